@@ -14,7 +14,7 @@ ENV.update({"CARGO_NET_OFFLINE": "true", "CARGO_TARGET_DIR": os.path.join(HARNES
 
 TRUSTED_BASE = [
     "Coq 8.16.1 kernel incl. vm_compute (no native_compute)",
-    "tools/rs2v.py (tables, constants), tools/rs2v_kernels.py (integer kernels -> checked-integer monad of coq/base/Checked.v) and tools/rs2v_parser.py (parser functions -> Gallina over the abstract reader; pure decoder functions): translators run on every check, trusted for their reading of the Rust subset (operator precedence, integer typing and inference of read widths, value-preserving casts, `wide` lanes as wrapping arithmetic, little-endian byte view, usize = 64 bits, `while` as the fuelled while_loop combinator, `loop` as loop_fuel with break/continue/return as results of the body, `for .. zip .. enumerate` as for_zip_enum, with_transaction as rollback-free body, a parser call matched on as a Result with the reader unchanged in its Err arms, Vec::with_capacity(n).capacity() = n, the split of decode_next_picture into five consecutive statement ranges and their composition p_decode_next_picture); what they emit is proved equal to the hand model in coq/bridge/*.v; tools/gen_spec_tables.py (H.263 code tables from vlib/h263spec.py into coq/spec/SpecTables.v)",
+    "tools/rs2v.py (tables, constants), tools/rs2v_kernels.py (integer kernels -> checked-integer monad of coq/base/Checked.v) and tools/rs2v_parser.py (parser functions -> Gallina over the abstract reader; pure decoder functions): translators run on every check, trusted for their reading of the Rust subset (operator precedence, integer typing and inference of read widths, value-preserving casts, `wide` lanes as wrapping arithmetic, little-endian byte view, usize = 64 bits, `while` as the fuelled while_loop combinator, `loop` as loop_fuel with break/continue/return as results of the body, `for .. zip .. enumerate` as for_zip_enum, with_transaction as rollback-free body, a parser call matched on as a Result with the reader unchanged in its Err arms, `for x in list` with early `return` as for_each_ret, the f32 8x8 coefficient block of inverse_rle as an integer matrix (every value stored is an i16, exactly representable), helper functions of a parser file translated on demand, fragments located by their sink with the locals they depend on pulled in where first needed, Vec::with_capacity(n).capacity() = n, the split of decode_next_picture into five consecutive statement ranges and their composition p_decode_next_picture); what they emit is proved equal to the hand model in coq/bridge/*.v; tools/gen_spec_tables.py (H.263 code tables from vlib/h263spec.py into coq/spec/SpecTables.v)",
     "hand-modelled and tied by execution only: parser/reader.rs primitives as used by the generated parsers (related to a bit list by C14's refinement theorem), read_vlc / read_umv tree walks, the PEI loop, decoder/state.rs glue, gather / idct loops, halfpel_decode",
     "axioms: none declared by this development; per theorem as listed under coverage.axioms (Print Assumptions): for everything that mentions the Flocq binary32 model the standard-library axioms ClassicalDedekindReals.sig_forall_dec, ClassicalDedekindReals.sig_not_dec, FunctionalExtensionality.functional_extensionality_dep, Classical_Prop.classic; for the interval-based basis-table lemma of C10 also the primitive float / Uint63 axioms of the standard library",
     "extraction: ExtrOcamlBasic only (Extract Inductive bool/option/unit/prod/list/sumbool/sumor), no Extract Constant; Z/positive/nat stay inductives",
